@@ -7,12 +7,15 @@ Anchors: `httputil._parse_request_range`, `_int_or_none`, `_get_content_range`;
 `RequestHandler.finish` (304 → `_clear_representation_headers`, Content-Length of an empty 416).
 
 Text is a list of code points, file content a list of byte values (`List Nat`).  Parameters (external
-functions): the file's ETag (SHA-512 of the content, quoted), the formatted Last-Modified date, the
-Content-Type guessed from the name, and the outcome of comparing `If-Modified-Since` with the mtime.
+functions): the file's ETag (SHA-512 of the content, quoted), the formatted Last-Modified date and the
+Content-Type guessed from the name.  The `If-Modified-Since` decision is NOT a parameter: the header text is
+parsed by the model of `email.utils.parsedate_to_datetime` in `Date.lean` and the instant it denotes is
+compared with the file's mtime (whole seconds since the epoch).
 
 The model follows the tree with the D6 fix: `_int_or_none` accepts ASCII digits only and strips
 `HTTP_WHITESPACE` (space, tab) only.
 -/
+import TornadoModel.C27.Date
 namespace TornadoModel.C27
 
 abbrev Str := List Nat
@@ -184,10 +187,20 @@ def checkEtag (computed inm : Str) : Bool :=
   else if etags.head? = some [42] then true
   else etags.any (fun e => weakVal e == weakVal computed)
 
-/-- outcome of `parsedate_to_datetime(If-Modified-Since) >= modified` (external date arithmetic) -/
+/-- outcome of `parsedate_to_datetime(If-Modified-Since) >= modified` -/
 inductive Ims where
   | absent | unparseable | before | notBefore
   deriving Repr, BEq, DecidableEq
+
+/-- the `If-Modified-Since` part of `should_return_304`: header absent; `parsedate_to_datetime` raised;
+otherwise the parsed datetime (a naive one taken as UTC) is compared, as an instant, with `self.modified`
+(`fromtimestamp(int(st_mtime), utc)`) -/
+def imsClass (mtime : Int) : Option Str → Ims
+  | none => .absent
+  | some v =>
+    match Date.parseInstant v with
+    | none => .unparseable
+    | some t => if t ≥ mtime then .notBefore else .before
 
 /-- `should_return_304` -/
 def shouldReturn304 (etag : Str) (inm : Option Str) (ims : Ims) : Bool :=
@@ -202,13 +215,14 @@ structure File where
   etag : Str            -- `compute_etag()`: `"` + sha512 hex + `"`
   lastModified : Str    -- formatted mtime
   ctype : Str           -- `get_content_type()`
+  mtime : Int := 0      -- `int(st_mtime)`: seconds since the epoch
   deriving Repr
 
 structure Req where
   head : Bool := false
   range : Option Str := none
   inm : Option Str := none
-  ims : Ims := .absent
+  ims : Option Str := none   -- the If-Modified-Since header text
   deriving Repr
 
 structure Resp where
@@ -237,7 +251,7 @@ def requestRange (req : Req) : Option (Option Int × Option Int) :=
 /-- `StaticFileHandler.get` (+ `finish`) for an existing file; status 500 = uncaught exception -/
 def respond (f : File) (req : Req) : Resp :=
   let size : Int := f.content.length
-  if shouldReturn304 f.etag req.inm req.ims then
+  if shouldReturn304 f.etag req.inm (imsClass f.mtime req.ims) then
     { status := 304, headers := baseHeaders f, body := [] }
   else
     match plan size (requestRange req) with
